@@ -362,8 +362,10 @@ func (enc Encryptor) encryptZeroSk(sk *SecretKey, ct interface{}) (err error) {
 	switch ct := ct.(type) {
 	case *Ciphertext:
 
+		// Only the compressed (degree 0) form keeps c1 in the buffer; any other
+		// target receives it (as with a public key, higher components are left untouched).
 		var c1 ring.Poly
-		if ct.Degree() == 1 {
+		if ct.Degree() >= 1 {
 			c1 = ct.Value[1]
 		} else {
 			c1 = enc.buffQP[1].Q
@@ -423,7 +425,7 @@ func (enc Encryptor) encryptZeroSkFromC1(sk *SecretKey, ct Element[ring.Poly], c
 		ringQ.Add(c0, e, c0)
 	} else {
 		ringQ.INTT(c0, c0)
-		if ct.Degree() == 1 {
+		if ct.Degree() >= 1 {
 			ringQ.INTT(c1, c1)
 		}
 
